@@ -157,9 +157,11 @@ pub(crate) fn scan_and_apply_units<S: TexlangState>(
             }
         };
         if let Some(v) = v_or {
-            let adjusted_fractional_part = v
-                .xn_over_d(fractional_part.0, Scaled::ONE.0)
-                .expect("n<d=Scaled::ONE, so overflow can't occur");
+            let adjusted_fractional_part = match v.xn_over_d(fractional_part.0, Scaled::ONE.0) {
+                Ok(a) => a,
+                // v can be beyond max_dimen because \advance wraps silently
+                Err(_) => return handle_overflow(input, first_token, v < Scaled::ZERO),
+            };
             return match v.nx_plus_y(integer_part, adjusted_fractional_part.0) {
                 Ok(s) => Ok(s),
                 Err(_) => handle_overflow(input, first_token, v < Scaled::ZERO),
